@@ -20,7 +20,7 @@ THEOREMS = ['C14.postOrder_nodup', 'C14.eval_order', 'C14.eval_prefix', 'C14.eva
             'C14.disabled_history', 'C14.disabled_until_enabled', 'C14.disabled_step', 'C14.enable_error_changes_nothing',
             'C14.store_registry_coherent', 'C14.restart_same', 'C14.enable_global_keeps_plugin_entry',
             'C14.machine_safety', 'C14.machine_log_grows', 'C14.extra_reply_witness', 'C14.race_runs_twice',
-            'C14.defaultplugin_sets']
+            'C14.defaultplugin_sets', 'C14.defaultplugin_remove_then_set']
 TRUSTED = ['Lean 4.33.0 kernel; axioms ⊆ {propext, Classical.choice, Quot.sound}',
            'harness/extractors/canonicalname.py (the `special` characters of canonicalName → Gen/CanonicalName.lean)',
            'harness/c14.py: introspection of the loaded plugins (names, command methods, nested groups) into the model input; generators; canonicalisation of the bot\'s replies',
@@ -29,7 +29,11 @@ RULE = ('worlds = random settings of nesting maximum, reply.maximumLength, error
         'same loaded plugins; per world: (full) trees of plugin-qualified replying / non-replying commands, fully checked against the statement; '
         '(mixed) trees over bare and qualified names with every behaviour (reply, noReply, error, silent, tag-ignored, exceptions, threaded, ambiguous, '
         'invalid, disabled, empty brackets); (deep) trees around the nesting maximum; (disp/find/getcmd) dispatch of argument lists over all loaded '
-        'plugin and command names; (canon) canonicalName. non-trivial = the model took a non-default branch (sub-command, stop kind, pop, dispatch rule).')
+        'plugin and command names; (canon) canonicalName; (dseq / dpseq) histories of the real disable / enable / defaultplugin commands, the registry '
+        'written to its file and read back in between (default plugins that come from the configuration file), remove-then-choose-again, the bare '
+        'name checked at top level and nested after every step; (nets) two networks = two Irc objects over the one shared plugin list: defaultplugin, '
+        'reload, unload + load given on either, bare and nested names evaluated on either, Irc.getCallback(name) is the loaded plugin on both. '
+        'Threads are joined without a deadline: no outcome depends on the clock. non-trivial = the model took a non-default branch (sub-command, stop kind, pop, dispatch rule).')
 
 SYN = ('VtOrderA', 'VtOrderB', 'VtOrderC')
 FILE_DEFAULTS = (('rone', 'VtOrderA'), ('both', 'VtOrderB'), ('nrep', 'VtOrderC'), ('igno', 'VtOrderB'))
@@ -62,6 +66,7 @@ class Live(object):
             u.addCapability('owner')
             u.addHostmask('own!er@vt.host')
             b.ircdb.users.setUser(u)
+        b.conf.supybot.protocols.irc.ping.setValue(False)      # nothing the bot does here depends on the clock
         self.success_text = b.conf.supybot.replies.success()
         self.log = []
         self._mcache = {}
@@ -85,6 +90,21 @@ class Live(object):
         self.irc_b.feedMsg(b.ircmsgs.IrcMsg(':server 001 %s :Welcome' % b.nick))
         self.drain(self.irc_b)
         self.records = self.introspect()
+
+    def wait_threads(self):
+        """every thread the evaluation started has finished: waited for by join, however long the machine takes (the
+        outcome never depends on the clock).  A thread that is still alive after an hour of wall time is reported as
+        an infrastructure failure (exit 2), never judged as a result."""
+        t0 = time.time()
+        while True:
+            ts = [t for t in threading.enumerate() if t.is_alive() and t is not threading.current_thread() and
+                  (isinstance(t, self.cb.CommandThread) or 'invalidCommands' in t.name)]
+            if not ts:
+                return
+            for t in ts:
+                t.join(5.0)
+            if time.time() - t0 > 3600:
+                raise RuntimeError('infrastructure: command threads still alive after an hour: %r' % [t.name for t in ts])
 
     def plugin(self, name):
         """the loaded plugin of that name, looked up in the shared list itself (the harness's own bookkeeping does not
@@ -261,13 +281,7 @@ class Live(object):
         finally:
             if unthreaded and cbc is not None:
                 del cbc.threaded
-        deadline = time.time() + 20
-        while True:
-            ts = [t for t in threading.enumerate() if isinstance(t, self.cb.CommandThread) and t.is_alive()]
-            if not ts or time.time() > deadline:
-                break
-            for t in ts:
-                t.join(0.5)
+        self.wait_threads()
         out = self.drain(self.net(net))
         b.world.vt_c14_calls = None
         body_calls = list(b.world.vt_c14_log)
@@ -285,13 +299,7 @@ class Live(object):
             b.irc.feedMsg(msg)
         except Exception as e:
             crash = type(e).__name__
-        deadline = time.time() + 20
-        while True:
-            ts = [t for t in threading.enumerate() if isinstance(t, self.cb.CommandThread) and t.is_alive()]
-            if not ts or time.time() > deadline:
-                break
-            for t in ts:
-                t.join(0.5)
+        self.wait_threads()
         out = bot.drain(b)
         b.world.vt_c14_calls = None
         return dict(msgs=[(m.command, m.args[0], m.args[1]) for m in out if m.command in ('PRIVMSG', 'NOTICE')],
